@@ -74,12 +74,29 @@ func intLiteral(r *rand.Rand, v *big.Int, signedOK bool) string {
 	return body
 }
 
+// binaryLiteral: a byte of a B item; the literal is read by ParseInt, so a sign is allowed
+func binaryLiteral(r *rand.Rand, v int64) string {
+	s := intLiteral(r, big.NewInt(v), true)
+	if v == 0 && r.Intn(4) == 0 && !strings.HasPrefix(s, "+") {
+		return "-" + s
+	}
+	return s
+}
+
 func floatLiteral(r *rand.Rand, bits uint64, w int) string {
 	var v float64
 	if w == 4 {
 		v = float64(math.Float32frombits(uint32(bits)))
 	} else {
 		v = math.Float64frombits(bits)
+	}
+	if v == 0 && r.Intn(2) == 0 {
+		// zero has many spellings; the sign of a negative zero is kept
+		z := []string{"0e5", "0.0E+10", "0e0", ".0e-3", "0.", "00.00", "0E-400", "0x0p0"}[r.Intn(7)]
+		if math.Signbit(v) {
+			return "-" + z
+		}
+		return z
 	}
 	switch r.Intn(5) {
 	case 0:
@@ -194,7 +211,7 @@ func itemTokens(r *rand.Rand, n *Node, forms bool, out *[]STok) {
 			switch n.Kind {
 			case "B":
 				if forms {
-					add(intLiteral(r, big.NewInt(s.I), false), 0, true)
+					add(binaryLiteral(r, s.I), 0, true)
 				} else {
 					add("0b"+strconv.FormatInt(s.I, 2), 0, true)
 				}
@@ -294,6 +311,7 @@ type Layout struct {
 	R        *rand.Rand
 	Compact  bool // allow zero-width gaps where tokens may touch
 	Comments bool
+	EndComment bool // a comment without line end closes the text
 	CRLF     bool
 	VaryCase bool
 	SizeWs   bool // white space inside size declarations
@@ -399,6 +417,14 @@ func (l *Layout) render(toks []STok) (string, [][2]int) {
 	}
 	if l.R.Intn(2) == 0 {
 		write(l.gap(true))
+	}
+	if l.Comments && l.EndComment {
+		// the input ends inside a comment (no line end after it)
+		ct := commentTexts[l.R.Intn(len(commentTexts))]
+		for strings.Contains(ct, "\r") {
+			ct = commentTexts[l.R.Intn(len(commentTexts))]
+		}
+		write(" //" + ct)
 	}
 	pos = append(pos, [2]int{line, col})
 	return sb.String(), pos
